@@ -30,9 +30,32 @@ def _run_chunk(module, func, chunk):
     for idx, case in chunk:
         try:
             out.append((idx, f(case)))
-        except BaseException as exc:  # a harness bug, not a property verdict
-            out.append((idx, {"harness_error": "".join(traceback.format_exception(exc))[-3000:]}))
+        except BaseException as exc:
+            lib = _raised_inside_library(exc)
+            if lib:
+                # the library itself raised in a flow that the check drives without any exception on a tree where the
+                # property holds: a verdict about the library (every property's flows imply "does not raise"), not a harness bug
+                out.append((idx, {"behaviour": ["library_call_raised", type(exc).__name__],
+                                  "violations": [{"clause": "library_call_raised", "key": {"exc": type(exc).__name__, "where": lib},
+                                                  "detail": f"{type(exc).__name__}: {str(exc)[:300]} (raised in {lib}) while running case {str(case)[:300]}"}]}))
+            else:  # a harness bug, never a property verdict
+                out.append((idx, {"harness_error": "".join(traceback.format_exception(exc))[-3000:]}))
     return out
+
+
+def _raised_inside_library(exc):
+    """'<file>:<function>' of the innermost library frame if the exception originated inside the library under test
+    (possibly deeper, in numpy/pandas called by it) and not in harness code; else None."""
+    repo = os.path.realpath(env.REPO_DIR) + os.sep
+    verif = os.path.realpath(env.VERIF_DIR) + os.sep
+    frames = traceback.extract_tb(exc.__traceback__)
+    for fr in reversed(frames):  # innermost first
+        fn = os.path.realpath(fr.filename)
+        if fn.startswith(repo):
+            return f"{os.path.relpath(fn, repo)}:{fr.name}"
+        if fn.startswith(verif):
+            return None
+    return None
 
 
 def n_workers(default=None):
